@@ -231,21 +231,26 @@ impl<C: ContentAddrStore> UnsealedState<C> {
     }
 
     fn move_action_fee_multiplier(&mut self, after_tip_901: bool, action: ProposerAction) {
+        // 128-bit signed arithmetic: `fee_multiplier >> 7` always fits, and the product with an `i8` saturates instead of wrapping.
         let max_movement = if after_tip_901 {
-            ((self.fee_multiplier >> 7) as i64).max(2)
+            ((self.fee_multiplier >> 7) as i128).max(2)
         } else {
-            (self.fee_multiplier >> 7) as i64
+            (self.fee_multiplier >> 7) as i128
         };
-        let scaled_movement = max_movement * action.fee_multiplier_delta as i64 / 128;
+        let scaled_movement = max_movement.saturating_mul(action.fee_multiplier_delta as i128) / 128;
         log::debug!(
             "changing fee multiplier {} by {}",
             self.fee_multiplier,
             scaled_movement
         );
         if scaled_movement >= 0 {
-            self.fee_multiplier += scaled_movement as u128;
+            self.fee_multiplier = self
+                .fee_multiplier
+                .saturating_add(scaled_movement as u128);
         } else {
-            self.fee_multiplier -= scaled_movement.unsigned_abs() as u128;
+            self.fee_multiplier = self
+                .fee_multiplier
+                .saturating_sub(scaled_movement.unsigned_abs());
         }
     }
 
